@@ -513,7 +513,10 @@ PROPS = {
               dict(driver="hist", args=["--nops", "40", "--per-file", "4", "--giant-values",
                                         "--reopen-bias", "1"], quick=8, thorough=200),
               dict(driver="hist", args=["--nops", "40", "--per-file", "6", "--profile", "straddle",
-                                        "--compact-bias", "1"], quick=6, thorough=150)]),
+                                        "--compact-bias", "1"], quick=6, thorough=150),
+              # keys of 17 KB (longer than any block, than a log block, than small memtables)
+              dict(driver="hist", args=["--nops", "30", "--per-file", "4", "--giant-keys",
+                                        "--reopen-bias", "1"], quick=4, thorough=100)]),
     "C03": dict(
         design=[(CORE, [Q1], ["MC_RainCore_small.cfg", "MC_RainCore_pins.cfg"])],
         switches=[("Bug_DropAboveSnapshot", CORE, Q1, "ReadCorrect"),
@@ -615,6 +618,9 @@ PROPS = {
                    quick=6, thorough=150),
               dict(driver="crash", args=["--nops", "25", "--threads", "2", "--early-reopen"],
                    quick=6, thorough=100),
+              # (17 KB keys: crashes between the fragments of multi-block MANIFEST records)
+              dict(driver="crash", args=["--nops", "12", "--threads", "2", "--giant-keys", "--both-reuse"],
+                   quick=2, thorough=40),
               dict(driver="crash", args=["--nops", "25", "--threads", "2", "--large",
                                          "--gen2-every", "9"], quick=4, thorough=60),
               # group commits with a slow leader: followers' acknowledgements vs the leader's append
@@ -790,6 +796,11 @@ PROPS = {
         switches=[("Bug_ReuseAfterTornTail", DUR, "MC_RainDur_small.cfg", None)],
         work=[dict(driver="crash", args=["--nops", "30", "--threads", "2", "--torn", "--every", "4"],
                    quick=8, thorough=150),
+              # keys of 17 KB: every manifest record (a version edit names a smallest and a largest
+              # key) is larger than a 32 KiB log block and is written as several fragments - torn
+              # continuation fragments of the MANIFEST
+              dict(driver="crash", args=["--nops", "12", "--threads", "2", "--torn", "--giant-keys",
+                                         "--every", "2"], quick=3, thorough=60),
               dict(driver="crash", args=["--nops", "20", "--threads", "2", "--torn", "--large",
                                          "--every", "4"], quick=4, thorough=40)]),
 }
